@@ -134,18 +134,62 @@ ASSUME ContentDistinguishes
 ASSUME RestrictionNarrows
 
 ------------------------------------------------------------------------------
+(* Simple-typed elements: xsi:type among simple types, fixed values (value    *)
+(* space), nil.  Declared type xs:integer; candidate types: xs:int and the user *)
+(* type "small" (integer <= 10) are restrictions of it, xs:decimal is its base,  *)
+(* xs:string is unrelated.  Text classes: "1", "01" (the same value), "2", "11", *)
+(* "x" (no number), "" (empty).                                                 *)
+SimpleCfgs == [eblock : {{}, {"res"}}, fixed : {"none", "one"}, nillable : BOOLEAN]
+SimpleInsts == [xt : {"none", "int", "small", "decimal", "string", "unknown"},
+                nil : {"absent", "true"}, text : {"1", "01", "2", "11", "x", ""}]
+TextOK(t, x) == CASE t \in {"integer", "int"} -> x \in {"1", "01", "2", "11"}
+                  [] t = "small" -> x \in {"1", "01", "2"}
+                  [] OTHER -> FALSE
+SimpleValid(c, i) ==
+  LET t == IF i.xt = "none" THEN "integer" ELSE i.xt IN
+    /\ t \in {"integer", "int", "small"}                     \* validly derived from the declared type
+    /\ (i.xt = "none" \/ "res" \notin c.eblock)              \* both are derived by restriction
+    /\ IF i.nil = "true"
+         THEN c.nillable /\ i.text = "" /\ c.fixed = "none"
+         ELSE IF c.fixed = "one" /\ i.text = "" THEN TRUE     \* an empty element takes the fixed value
+         ELSE TextOK(t, i.text) /\ (c.fixed = "one" => i.text \in {"1", "01"})
+
+(* XSD 1.1 type alternatives: the first alternative whose test holds selects the *)
+(* governing type.  Declared type T (content: nothing); TA, TB, TC extend it    *)
+(* with one required child x, y, z.  alts is a sequence of <<test, type>> with  *)
+(* test "a" / "b" (@k = 'a' / 'b') or "default".                                *)
+AltLists == {<<<<"a", "TA">>, <<"b", "TB">>, <<"default", "TC">>>>,
+             <<<<"b", "TB">>, <<"a", "TA">>, <<"default", "TC">>>>,
+             <<<<"a", "TA">>, <<"a", "TB">>, <<"default", "TC">>>>,
+             <<<<"a", "TA">>, <<"b", "TB">>>>,
+             <<<<"b", "TA">>, <<"default", "TB">>>>}
+AltInsts == [k : {"absent", "a", "b", "z"}, child : {"none", "x", "y", "z"}]
+RECURSIVE Select(_, _)
+Select(alts, k) == IF alts = <<>> THEN "T"
+                   ELSE IF Head(alts)[1] = "default" \/ Head(alts)[1] = k THEN Head(alts)[2]
+                   ELSE Select(Tail(alts), k)
+ChildOf(t) == CASE t = "T" -> "none" [] t = "TA" -> "x" [] t = "TB" -> "y" [] t = "TC" -> "z"
+AltValid(alts, i) == i.child = ChildOf(Select(alts, i.k))
+ASSUME \A al \in AltLists : \A k \in {"absent", "a", "b", "z"} : Select(al, k) \in {"T", "TA", "TB", "TC"}
+
+------------------------------------------------------------------------------
 (* enumeration as a (stateless) state space: one initial state per case       *)
-CONSTANTS Mode      \* "xsitype" | "subst"
+CONSTANTS Mode      \* "xsitype" | "subst" | "simple" | "alt"
 VARIABLES cfg, inst
-Init == IF Mode = "xsitype"
-        THEN cfg \in Schemas /\ inst \in Instances
-        ELSE cfg \in {q \in SubSchemas : SubWellFormed(q)} /\ inst \in {"H", "M1", "M2"}
+Init == CASE Mode = "xsitype" -> cfg \in Schemas /\ inst \in Instances
+          [] Mode = "subst"   -> cfg \in {q \in SubSchemas : SubWellFormed(q)} /\ inst \in {"H", "M1", "M2"}
+          [] Mode = "simple"  -> cfg \in SimpleCfgs /\ inst \in SimpleInsts
+          [] Mode = "alt"     -> cfg \in AltLists /\ inst \in AltInsts
 Next == FALSE /\ UNCHANGED <<cfg, inst>>
 Spec == Init /\ [][Next]_<<cfg, inst>>
 TypesOf(s) == [T0 |-> Content(s, "T0"), T1 |-> Content(s, "T1"), T2 |-> Content(s, "T2")]
-Emit == IF Mode = "xsitype"
-        THEN PrintT(ToJson([cfg |-> cfg, inst |-> inst, types |-> TypesOf(cfg),
-                            word |-> Variant(cfg, inst.var), valid |-> ElemValid(cfg, inst)]))
-        ELSE PrintT(ToJson([cfg |-> cfg, inst |-> inst, types |-> TypesOf(AsSchema(cfg)),
-                            valid |-> SubstValid(cfg, inst)]))
+Emit == CASE Mode = "xsitype" ->
+               PrintT(ToJson([cfg |-> cfg, inst |-> inst, types |-> TypesOf(cfg),
+                              word |-> Variant(cfg, inst.var), valid |-> ElemValid(cfg, inst)]))
+          [] Mode = "subst" ->
+               PrintT(ToJson([cfg |-> cfg, inst |-> inst, types |-> TypesOf(AsSchema(cfg)),
+                              valid |-> SubstValid(cfg, inst)]))
+          [] Mode = "simple" -> PrintT(ToJson([cfg |-> cfg, inst |-> inst, valid |-> SimpleValid(cfg, inst)]))
+          [] Mode = "alt" -> PrintT(ToJson([cfg |-> cfg, inst |-> inst, sel |-> Select(cfg, inst.k),
+                                            valid |-> AltValid(cfg, inst)]))
 =============================================================================
